@@ -111,16 +111,11 @@ def _run(F, R, ctx):
                "Gc::%s no longer delegates to the uniqueness-checked accessor of the shared pointer (calls: %s)" % (
                    nm, [lib.short_name(c) for c in dele]), fn.loc(), sample=True)
     hu = F.one(r"^steel_rc::\{impl RcBox<T>\}::has_unique_ref$")
-    setc = [b["args"] for _, b in hu.calls() if re.search(r"\{impl Packed\}::set_counter$", b["callee"])]
     okb, why = c05.owner_branch_checks_shared(hu)
     R.inst("C03.b", "has_unique_ref / owner branch: local count == 1 and shared count == 0", okb,
            "RcBox::has_unique_ref: %s — Gc::get_mut / make_mut then hand out &mut to a value another thread still holds" % why,
            hu.loc(), sample=True)
-    R.inst("C03.b", "has_unique_ref / merged branch: compare_exchange(count 1 -> 0)",
-           bool(hu.call_blocks(r"\{impl SharedPacked\}::compare_exchange$", wrappers=True)) and
-           any("const:1" in a for a in setc) and any("const:0" in a for a in setc),
-           "RcBox::has_unique_ref's ownerless branch no longer claims the value with compare_exchange(expected count 1)",
-           hu.loc(), sample=True)
+    c05.unique_predicate_instances(F, R, "C03.b", hu)
     # C05.d instances are shared (same construct)
     gm = F.one(r"^steel_rc::\{impl BiasedRc<T>\}::get_mut$")
     hub = gm.call_blocks(r"\{impl RcBox<T>\}::has_unique_ref$")
